@@ -1,6 +1,7 @@
 // kv-mount: src/stack.rs
 // kv-needs: kfs
 // kv-with: readonly_ops
+// kv-with: contracts
 //
 // Stacked caches (stack::Cache over plain/sharded writers and ReadOnlyCache readers) on KFS:
 // lookup order and hit actions (C13), consistency checker (C14), read-only sides untouched (C15),
@@ -36,7 +37,9 @@ static mut JUDGE_SAW: u8 = 0; // 0: not called, 1: Primary, 2: Secondary
 static mut JUDGE_CONTENT: u8 = 0;
 static mut POPULATE_CALLS: u8 = 0;
 
+static mut SHARDED_REACHED: bool = false;
 pub fn ids_01(_c: &crate::sharded::Cache, _k: Key) -> (usize, usize) {
+    unsafe { SHARDED_REACHED = true };
     (0, 1)
 }
 pub fn random_2(_c: &crate::sharded::Cache) -> usize {
@@ -82,6 +85,7 @@ fn unchanged_but_atime(dir: u8, before: (u8, kfs::Inode)) {
 fn stack_case(writer: u8, readers: u8, op: u8, checker: u8, auto_sync: bool, fault: bool, env: u8, contents: [u8; 3]) {
     kfs::reset();
     unsafe {
+        SHARDED_REACHED = false;
         JUDGE_SAW = 0;
         JUDGE_CONTENT = 0;
         POPULATE_CALLS = 0;
@@ -404,6 +408,10 @@ fn stack_case(writer: u8, readers: u8, op: u8, checker: u8, auto_sync: bool, fau
         unchanged_but_atime(kfs::D_Q, q_before);
     }
     assert!(kfs::tree_valid(), "KV-C02: the tree is valid when the operation returns");
+    kani::cover!(true, "operation returned");
+    if writer != W_SHARDED {
+        assert!(!unsafe { SHARDED_REACHED }, "KV-MODEL: dynamic dispatch on the write side resolved to the plain cache only");
+    }
     std::mem::forget(cache);
 }
 
@@ -469,6 +477,62 @@ stack_harness!(stack_gou_w1r1_fault_miss, W_PLAIN, 1, OP_GOU, CK_NONE, true, tru
 stack_harness!(stack_gou_w1r1_fault_sec, W_PLAIN, 1, OP_GOU, CK_NONE, true, true, N, [0, VAL_A, 0]);
 stack_harness!(stack_set_temp_w1r1_fault, W_PLAIN, 1, OP_SET_TEMP, CK_NONE, true, true, N, [0, 0, 0]);
 stack_harness!(stack_set_w1r1_fault, W_PLAIN, 1, OP_SET, CK_NONE, true, true, N, [0, 0, 0]);
+
+// ---- the same cases with every plain level replaced by its summary (harness/contracts.rs) ---------
+// stack.rs and readonly.rs run for real; plain::Cache::{get,touch,set,put,temp_dir} are the
+// step-for-step summaries.  This is what makes symbolic level contents, faults and peers affordable
+// for ensure / get_or_update / set_temp_file.
+macro_rules! stackc_harness {
+    ($name:ident, $w:expr, $r:expr, $op:expr, $ck:expr, $sync:expr, $fault:expr, $env:expr, $contents:expr) => {
+        kfs_harness! {
+            #[kani::unwind(48)]
+            #[kani::stub(crate::sharded::Cache::shard_ids, ids_01)]
+            #[kani::stub(crate::sharded::Cache::random_shard_id, random_2)]
+            #[kani::stub(crate::raw_cache::prune, crate::kv_kfs::spec_prune)]
+            #[kani::stub(crate::plain::Cache::get, crate::plain::kv_contracts::c_get)]
+            #[kani::stub(crate::plain::Cache::touch, crate::plain::kv_contracts::c_touch)]
+            #[kani::stub(crate::plain::Cache::set, crate::plain::kv_contracts::c_set)]
+            #[kani::stub(crate::plain::Cache::put, crate::plain::kv_contracts::c_put)]
+            #[kani::stub(crate::plain::Cache::temp_dir, crate::plain::kv_contracts::c_temp_dir)]
+            fn $name() {
+                stack_case($w, $r, $op, $ck, $sync, $fault, $env, $contents);
+                if $fault {
+                    kani::cover!(kfs::k().failed, "fault fired");
+                }
+            }
+        }
+    };
+}
+
+const S3: [u8; 3] = [SYM, SYM, SYM];
+stackc_harness!(stackc_get_w1r2_bytes, W_PLAIN, 2, OP_GET, CK_BYTES, true, false, N, S3);
+stackc_harness!(stackc_touch_w1r2, W_PLAIN, 2, OP_TOUCH, CK_NONE, true, false, N, S3);
+stackc_harness!(stackc_ensure_w1r1, W_PLAIN, 1, OP_ENSURE, CK_NONE, true, false, N, S3);
+stackc_harness!(stackc_ensure_w1r1_miss, W_PLAIN, 1, OP_ENSURE, CK_NONE, true, false, N, [0, 0, 0]);
+stackc_harness!(stackc_gou_w1r1, W_PLAIN, 1, OP_GOU, CK_NONE, true, false, N, S3);
+stackc_harness!(stackc_gou_w1r1_miss, W_PLAIN, 1, OP_GOU, CK_NONE, true, false, N, [0, 0, 0]);
+stackc_harness!(stackc_gou_w1r1_sec, W_PLAIN, 1, OP_GOU, CK_NONE, true, false, N, [0, VAL_A, 0]);
+stackc_harness!(stackc_gou_w1r1_pri, W_PLAIN, 1, OP_GOU, CK_NONE, true, false, N, [VAL_A, VAL_B, 0]);
+stackc_harness!(stackc_gou_w1r1_bytes, W_PLAIN, 1, OP_GOU, CK_BYTES, true, false, N, S3);
+stackc_harness!(stackc_gou_w1r1_bytes_sec, W_PLAIN, 1, OP_GOU, CK_BYTES, true, false, N, [0, VAL_A, 0]);
+stackc_harness!(stackc_gou_w1r1_bytes_pri_same, W_PLAIN, 1, OP_GOU, CK_BYTES, true, false, N, [VAL_A, VAL_A, 0]);
+stackc_harness!(stackc_gou_w1r1_bytes_pri_diff, W_PLAIN, 1, OP_GOU, CK_BYTES, true, false, N, [VAL_A, VAL_B, 0]);
+stackc_harness!(stackc_gou_w1r0_bytes_pri, W_PLAIN, 0, OP_GOU, CK_BYTES, true, false, N, [VAL_A, 0, 0]);
+stackc_harness!(stackc_gou_w1r2_bytes, W_PLAIN, 2, OP_GOU, CK_BYTES, true, false, N, S3);
+stackc_harness!(stackc_set_w1r1, W_PLAIN, 1, OP_SET, CK_NONE, true, false, N, [SYM, 0, 0]);
+stackc_harness!(stackc_put_w1r1, W_PLAIN, 1, OP_PUT, CK_NONE, true, false, N, [SYM, 0, 0]);
+stackc_harness!(stackc_set_temp_w1r1, W_PLAIN, 1, OP_SET_TEMP, CK_NONE, true, false, N, [SYM, 0, 0]);
+stackc_harness!(stackc_put_temp_w1r1, W_PLAIN, 1, OP_PUT_TEMP, CK_NONE, true, false, N, [SYM, 0, 0]);
+stackc_harness!(stackc_gou_w1r1_env_sec, W_PLAIN, 1, OP_GOU, CK_NONE, true, false, kfs::ENV_FULL, [0, VAL_A, 0]);
+stackc_harness!(stackc_gou_w1r1_env_miss, W_PLAIN, 1, OP_GOU, CK_NONE, true, false, kfs::ENV_FULL, [0, 0, 0]);
+stackc_harness!(stackc_ensure_w1r0_putonly_miss, W_PLAIN, 0, OP_ENSURE, CK_NONE, true, false, kfs::ENV_PUT_ONLY, [0, 0, 0]);
+stackc_harness!(stackc_gou_w1r1_nosync_miss, W_PLAIN, 1, OP_GOU, CK_NONE, false, false, N, [0, 0, 0]);
+stackc_harness!(stackc_gou_w1r1_fault_miss, W_PLAIN, 1, OP_GOU, CK_NONE, true, true, N, [0, 0, 0]);
+stackc_harness!(stackc_gou_w1r1_fault_sec, W_PLAIN, 1, OP_GOU, CK_NONE, true, true, N, [0, VAL_A, 0]);
+stackc_harness!(stackc_gou_w1r1_fault_pri, W_PLAIN, 1, OP_GOU, CK_NONE, true, true, N, [VAL_A, 0, 0]);
+stackc_harness!(stackc_set_temp_w1r1_fault, W_PLAIN, 1, OP_SET_TEMP, CK_NONE, true, true, N, [0, 0, 0]);
+stackc_harness!(stackc_put_temp_w1r1_fault, W_PLAIN, 1, OP_PUT_TEMP, CK_NONE, true, true, N, [0, 0, 0]);
+stackc_harness!(stackc_set_w1r1_fault, W_PLAIN, 1, OP_SET, CK_NONE, true, true, N, [0, 0, 0]);
 
 kfs_harness! {
     #[kani::unwind(48)]
